@@ -121,9 +121,18 @@ func presentTrees(c *Ctx, r *rand.Rand, base string, texts []string, plain bool)
 		return []string{"-i", tmpFile(c, base+".nw", strings.TrimSuffix(doc, "\n"))}, "", mode
 	case "gz":
 		var b bytes.Buffer
-		z := gzip.NewWriter(&b)
-		_, _ = z.Write([]byte(doc))
-		_ = z.Close()
+		parts := []string{doc}
+		if len(texts) >= 2 && r.Intn(2) == 0 {
+			// several gzip members one after the other (what "cat a.gz b.gz" gives): still one file of trees
+			k := 1 + r.Intn(len(texts)-1)
+			parts = []string{strings.Join(texts[:k], "\n") + "\n", strings.Join(texts[k:], "\n") + "\n"}
+			mode = "gz-two-members"
+		}
+		for _, part := range parts {
+			z := gzip.NewWriter(&b)
+			_, _ = z.Write([]byte(part))
+			_ = z.Close()
+		}
 		p := filepath.Join(c.Tmp, base+".nw.gz")
 		if err := os.WriteFile(p, b.Bytes(), 0o644); err != nil {
 			panic(err)
